@@ -835,7 +835,7 @@ class C18(runner.Check):
             'every state and the machine x global and scope-local transitions (reflexive, internal, to ancestors / '
             'descendants, blocked by conditions) + auto transitions x histories of 2-9 events; on_final callbacks registered at '
             'construction, through model methods on_final_<state>, or through machine.on_final_<state>(cb) afterwards (states '
-            'without constructor callbacks get no on_final argument); separate model or the machine as its own model; event '
+            'without constructor callbacks get no on_final argument); separate model (plus 0-2 idle models of the same class, registered at construction / by add_model) or the machine as its own model; event '
             'names incl. \'final\'; optionally a second machine with its own dynamic registration alive; machine class plain / '
             'locked / decorated with add_state_features (Tags, Error, Volatile); alternating '
             'HierarchicalMachine / HierarchicalAsyncMachine (plain and coroutine recorders); small scope: every ordered '
